@@ -627,6 +627,10 @@ inline std::vector<std::string> spell(const Config &c, const Line &line, const S
     std::string longKey;
     int kind = K_FLAG;
     bool optionalValue = false;
+    if (u.arg < 0 && u.keyText.empty()) {   // stray value word
+      w.push_back(u.elems.empty() ? std::string("x") : u.elems[0]);
+      continue;
+    }
     if (u.arg < 0) {
       if (u.keyText.size() == 1) shortKey = u.keyText[0]; else longKey = u.keyText;
       kind = u.hasValue ? K_STRING : K_FLAG;
